@@ -77,3 +77,31 @@ Theorem robbed_holder_cannot_release_refuted :
     holds s p = true /\ snd (stepe dead false s p) = EUNotOwner q.
 Proof. exists f21_dead, (Some 2), f21_sched, 1, 0. split; [apply f21_both_hold | exact f21_victim_cannot_release]. Qed.
 Print Assumptions robbed_holder_cannot_release_refuted.
+
+(** lock objects inherited across fork.  Start: process [h] (alive) already holds the lock, the processes in
+    [us] are forked copies whose first call is unlock() on the inherited object (its [locked] attribute is True,
+    but the link names [h]); everybody else is idle.  For every N and every interleaving: still at most one
+    holder, and the link names it -- in the code as it is the pid written and compared is the caller's
+    (os.getpid() at the time of the call), never one cached in the object *)
+Theorem mutex_with_inherited_lock_objects : forall (dead : pid -> bool) (h : pid) (us sched : list pid),
+  dead h = false ->
+  let s := exec dead false (init_fork None (Some h) us) sched in
+  (forall p, holds s p = true -> link s = Some p /\ dead p = false)
+  /\ (forall p q, holds s p = true -> holds s q = true -> p = q).
+Proof.
+  intros dead h us sched Hh. apply (inv_mutex dead false), exec_inv_wf, init_fork_wf; [|discriminate].
+  intros h' E. inversion E; subst. exact Hh.
+Qed.
+Print Assumptions mutex_with_inherited_lock_objects.
+
+(** unlock() by a process whose pid is not the link content raises ValueError and leaves the link alone *)
+Theorem unlock_by_non_owner_refused : forall (dead : pid -> bool) (cas : bool) (s : st) p q,
+  dead p = false -> pc s p = UStart -> link s = Some q -> q <> p ->
+  snd (stepe dead cas s p) = EUNotOwner q
+  /\ link (step dead cas s p) = Some q
+  /\ (forall r, r <> p -> pc (step dead cas s p) r = pc s r).
+Proof.
+  intros dead cas s p q Hp Hpc Hl Hne. unfold step. rewrite (ustart_refused dead cas s p q Hp Hpc Hl Hne). cbn.
+  split; [reflexivity|]. split; [exact Hl|]. intros r Hr. apply upd_other, Hr.
+Qed.
+Print Assumptions unlock_by_non_owner_refused.
